@@ -6,7 +6,7 @@ From Coq Require Import ZArith List Bool PArith FMapPositive Lia.
 From XV Require Import C01.Model C01.Spec C01.ProofsBase C01.ProofsWfb C01.ProofsFrame C01.ProofsUses
   C01.ProofsOperands C01.ProofsRauw C01.ProofsSetOperands C01.ProofsSetSuccessors C01.ProofsDll C01.ProofsOps
   C01.ProofsBlocks C01.ProofsOpRegions C01.ProofsMove C01.ProofsOpLists C01.ProofsBlockLists C01.ProofsArgs
-  C01.ProofsCreate C01.ProofsInv C01.ProofsErase C01.ProofsReplaceType.
+  C01.ProofsCreate C01.ProofsInv C01.ProofsErase C01.ProofsReplaceType C01.ProofsReplaceOp.
 Import ListNotations.
 Local Open Scope Z_scope.
 
@@ -20,9 +20,12 @@ Proof. apply wf_b_sound. vm_compute. reflexivity. Qed.
 Definition proved_call (c : call) : bool :=
   match c with
   | COpCreate _ _ _ _ | CBlockNew _ _ | CRegionNew _ | CCreateBlock _ _ _ => true
-  (* erase of an operation: proved for operations WITHOUT regions (see args_live) *)
+  (* erase of an operation: either the operation has no regions, or every node of the subtree
+     that the erase is going to mark is live (see args_live) *)
   | COpErase _ _ | CEraseOp _ _ _ | CRwEraseOp _ _ _ => true
   | CRwReplaceValueWithNewType _ _ => true
+  (* replace_op / PatternRewriter.replace_op: the replaced operation has no regions *)
+  | CRwReplaceOp _ _ _ _ | CPrReplace _ _ _ _ => true
   | CSetOperands _ _ | CSetSuccessors _ _ | COperandSetItem _ _ _ | CSuccessorSetItem _ _ _
   | CAddRegion _ _ | CDetachRegion _ _ | CDetachRegionIdx _ _
   | CReplaceAllUsesWith _ _ | CReplaceUsesWithIf _ _ _ | CValueErase _ _
@@ -46,13 +49,27 @@ Definition op_live_noregions (s : state) (o : oid) : Prop :=
   exists x, PM.find o (s_ops s) = Some x /\ o_erased x = false /\ o_regions x = [] /\
             (forall b, o_parent x = Some b -> blk_live s b).
 
+(* every node that a successful erase of o marks erased (the walk collect_op) is live *)
+Definition tree_live (s : state) (o : oid) : Prop := all_live s (collect_op (fuel_of s) s o).
+(* the same, stated on the state reached by detaching o from its block b first (which is what
+   Block.erase_op / Rewriter.erase_op do before erasing) *)
+Definition tree_live_detached (s : state) (b : bid) (o : oid) : Prop :=
+  forall s1 r1, detach_op b o s = (s1, Ok r1) -> tree_live s1 o.
+
 (* "objects erased by a successful erase call are not used again", per constructor *)
 Definition args_live (s : state) (c : call) : Prop :=
   match c with
   | CBlockNew ops _ => forall o, In o ops -> op_live s o
-  | COpErase o _ | CRwEraseOp _ o _ => op_live_noregions s o
+  | COpErase o _ => op_live_noregions s o \/ tree_live s o
+  | CRwEraseOp _ o _ =>
+      op_live_noregions s o \/
+      (op_live s o /\
+       (forall x b, PM.find o (s_ops s) = Some x -> o_parent x = Some b -> blk_live s b /\ tree_live_detached s b o) /\
+       (forall x, PM.find o (s_ops s) = Some x -> o_parent x = None -> tree_live s o))
+  | CRwReplaceOp o news _ _ | CPrReplace o news _ _ =>
+      op_live_noregions s o /\ (forall n, In n news -> op_live s n)
   | CRwReplaceValueWithNewType _ v => val_live s v
-  | CEraseOp b o _ => blk_live s b /\ op_live_noregions s o
+  | CEraseOp b o _ => blk_live s b /\ (op_live_noregions s o \/ (op_live s o /\ tree_live_detached s b o))
   | CRegionNew blocks => forall b, In b blocks -> blk_live s b
   | CCreateBlock r ib _ => reg_live s r /\ (forall t, ib = Some t -> blk_live s t)
   | CSetOperands o _ | CSetSuccessors o _ | COperandSetItem o _ _ | CSuccessorSetItem o _ _
@@ -188,21 +205,39 @@ Proof. intros operands nres succs regions. w_lift. split; [exact (proj1 (op_crea
 
 Lemma W_COpErase : forall o safe, step_ok (COpErase o safe).
 Proof.
-  intros o safe. w_unit. destruct AL as (x & F & Ex & Rx & BL). split.
+  intros o safe. w_unit. split; [|p_nobody op_erase_par].
+  destruct AL as [(x & F & Ex & Rx & BL)|TL].
   - exact (op_erase_noregions_WF _ _ _ _ _ _ W F Ex Rx E).
-  - p_nobody op_erase_par.
+  - exact (op_erase_tree_WF _ _ _ _ _ W TL E).
 Qed.
 Lemma W_CEraseOp : forall b o safe, step_ok (CEraseOp b o safe).
 Proof.
-  intros b o safe. w_unit. destruct AL as (A1 & x & F & Ex & Rx & BL). split.
+  intros b o safe. w_unit. split; [|p_nobody erase_op_par].
+  destruct AL as [A1 [(x & F & Ex & Rx & BL)|[OL TL]]].
   - exact (erase_op_noregions_WF _ _ _ _ _ _ _ W A1 F Ex Rx E).
-  - p_nobody erase_op_par.
+  - exact (erase_op_tree_WF _ _ _ _ _ _ W A1 OL TL E).
 Qed.
 Lemma W_CRwEraseOp : forall pr o safe, step_ok (CRwEraseOp pr o safe).
 Proof.
-  intros pr o safe. w_unit. destruct AL as (x & F & Ex & Rx & BL). split.
+  intros pr o safe. w_unit. split; [|p_nobody rw_erase_op_par].
+  destruct AL as [(x & F & Ex & Rx & BL)|(OL & T1 & T2)].
   - exact (rw_erase_op_noregions_WF _ _ _ _ _ _ W F Ex Rx BL E).
-  - p_nobody rw_erase_op_par.
+  - exact (rw_erase_op_tree_WF _ _ _ _ _ W OL T1 T2 E).
+Qed.
+
+Lemma W_CRwReplaceOp : forall o news nres safe, step_ok (CRwReplaceOp o news nres safe).
+Proof.
+  intros o news nres safe. w_unit. destruct AL as [(x & F & Ex & Rx & BL) NL].
+  assert (BL' : forall x0 b, PM.find o (s_ops s) = Some x0 -> o_parent x0 = Some b -> blk_live s b).
+  { intros x0 b F0 P0. rewrite F in F0. injection F0 as <-. exact (BL b P0). }
+  exact (rw_replace_op_inv _ _ _ _ _ _ _ W PO (ex_intro _ x (conj F (conj Ex Rx))) BL' NL E).
+Qed.
+Lemma W_CPrReplace : forall o news nres safe, step_ok (CPrReplace o news nres safe).
+Proof.
+  intros o news nres safe. w_unit. destruct AL as [(x & F & Ex & Rx & BL) NL].
+  assert (BL' : forall x0 b, PM.find o (s_ops s) = Some x0 -> o_parent x0 = Some b -> blk_live s b).
+  { intros x0 b F0 P0. rewrite F in F0. injection F0 as <-. exact (BL b P0). }
+  exact (pr_replace_inv _ _ _ _ _ _ _ W PO (ex_intro _ x (conj F (conj Ex Rx))) BL' NL E).
 Qed.
 
 Lemma rvnt_par : forall PB PR PO v, preserves (par_rel PB PR PO) (rw_replace_value_with_new_type v).
@@ -301,7 +336,7 @@ Proof.
 Qed.
 
 Create HintDb wstep discriminated.
-#[export] Hint Resolve W_CSetOperands W_CSetSuccessors W_COperandSetItem W_CSuccessorSetItem W_CAddRegion W_CDetachRegion W_CDetachRegionIdx W_CReplaceAllUsesWith W_CReplaceUsesWithIf W_CValueErase W_CPrReplaceAllUsesWith W_CPrReplaceUsesWithIf W_CInsertArg W_CPrInsertBlockArgument W_CEraseArg W_CInsertOpAfter W_CInsertOpBefore W_CAddOp W_CDetachOp W_CAddOps W_CInsertOpsBefore W_CInsertOpsAfter W_CRwInsertOp W_CAddBlock W_CInsertBlockBefore W_CInsertBlockAfter W_CInsertBlock W_CRwInsertBlock W_CDetachBlock W_CDetachBlockIdx W_CMoveBlocks W_CBlockNew W_CRegionNew W_COpCreate W_COpErase W_CEraseOp W_CRwEraseOp W_CRwReplaceValueWithNewType W_COpDetach W_CPrEraseBlockArgument W_CMoveBlocksBefore W_CRwInlineRegion W_CRwMoveRegionContents W_CCreateBlock : wstep.
+#[export] Hint Resolve W_CSetOperands W_CSetSuccessors W_COperandSetItem W_CSuccessorSetItem W_CAddRegion W_CDetachRegion W_CDetachRegionIdx W_CReplaceAllUsesWith W_CReplaceUsesWithIf W_CValueErase W_CPrReplaceAllUsesWith W_CPrReplaceUsesWithIf W_CInsertArg W_CPrInsertBlockArgument W_CEraseArg W_CInsertOpAfter W_CInsertOpBefore W_CAddOp W_CDetachOp W_CAddOps W_CInsertOpsBefore W_CInsertOpsAfter W_CRwInsertOp W_CAddBlock W_CInsertBlockBefore W_CInsertBlockAfter W_CInsertBlock W_CRwInsertBlock W_CDetachBlock W_CDetachBlockIdx W_CMoveBlocks W_CBlockNew W_CRegionNew W_COpCreate W_COpErase W_CEraseOp W_CRwEraseOp W_CRwReplaceValueWithNewType W_COpDetach W_CPrEraseBlockArgument W_CMoveBlocksBefore W_CRwInlineRegion W_CRwMoveRegionContents W_CCreateBlock W_CRwReplaceOp W_CPrReplace : wstep.
 
 Definition Inv (s : state) : Prop := WF s /\ parents_ok s.
 
